@@ -583,29 +583,36 @@ def handle_violation(pool, rep, prop, spec, vio, phase_index=0, census=None):
 
 
 def replay(prop, args, rep):
+    """Re-execute a replay file in fresh zygotes.  Everything the simulator controls is replayed exactly; a failure
+    that additionally depends on something it does not control (CPython object addresses, an entropy-seeded generator
+    inside compiled code) may need more than one attempt, so up to 5 are made and the number needed is printed."""
     with open(args.replay) as fh:
         obj = json.load(fh)
     spec = obj['spec']
     hs = spec.get('hashseed') or 0
-    pool = common.ZygotePool(hashseeds=[hs], width=2)
-    r = pool.run([job_of(spec)])[0]
-    if obj['class'] == 'restart-differs':
-        # the undisturbed run is re-executed on the tree under test (not taken from the file): the oracle is
-        # "killed + restarted == undisturbed" on ONE tree
-        plain = copy.deepcopy(spec)
-        plain.pop('phases', None)
-        rc = pool.run([job_of(plain)])[0]
-        pc = phase_values(rc)[0]['proc'].get('value', {})
-        phs = phase_values(r)
-        p0 = phs[0]['proc'].get('value', {})
-        p1 = phs[1]['proc'].get('value', {}) if len(phs) > 1 else {}
-        ok = p0.get('status') == 'crashed' and p1.get('ranks') != pc.get('ranks')
-    else:
-        ok = same_failure(prop, spec, r, obj['class'], key=obj.get('key'))
-    pool.close()
+    ok, attempts = False, 0
+    for attempts in range(1, 6):
+        pool = common.ZygotePool(hashseeds=[hs], width=2)
+        r = pool.run([job_of(spec)])[0]
+        if obj['class'] == 'restart-differs':
+            # the undisturbed run is re-executed on the tree under test (not taken from the file): the oracle is
+            # "killed + restarted == undisturbed" on ONE tree
+            plain = copy.deepcopy(spec)
+            plain.pop('phases', None)
+            rc = pool.run([job_of(plain)])[0]
+            pc = phase_values(rc)[0]['proc'].get('value', {})
+            phs = phase_values(r)
+            p0 = phs[0]['proc'].get('value', {})
+            p1 = phs[1]['proc'].get('value', {}) if len(phs) > 1 else {}
+            ok = p0.get('status') == 'crashed' and p1.get('ranks') != pc.get('ranks')
+        else:
+            ok = same_failure(prop, spec, r, obj['class'], key=obj.get('key'))
+        pool.close()
+        if ok:
+            break
     if ok:
-        print(f"REPRODUCED class={obj['class']}")
+        print(f"REPRODUCED class={obj['class']} (attempt {attempts})")
         print(f'VIOLATION property={prop} replay={args.replay}')
         return 1
-    print(f"NOT-REPRODUCED expected class={obj['class']}")
+    print(f"NOT-REPRODUCED expected class={obj['class']} (5 attempts)")
     return 0
